@@ -42,6 +42,7 @@ package sn2core
 // order (reverted transactions included: their fee and nonce effects are part of the state), so
 // that the block-level overlay agrees with the per-transaction diffs.
 //@ extern func github.com/NethermindEth/juno/core/pending.NewPreConfirmed
+//@   ensures result.Block == block && result.StateUpdate == stateUpdate && result.BlockIdentifier == blockIdentifier
 //@ func AdaptPreConfirmedBlock
 //@   props C20
 //@   arith int
@@ -51,4 +52,5 @@ package sn2core
 //@   callsite StateDiff.Merge@*: into_a_diff_of_its_own: $0 != nil && fresh($0) && $1 == txStateDiff
 //@   loop 1: invariant sizes: txCount == len(response.Transactions) && len(txStateDiffs) == txCount && len(txns) == txCount && len(receipts) == txCount && fresh(txStateDiffs) && fresh(txns) && fresh(receipts) && calls_DiffMerge == old(calls_DiffMerge)
 //@   loop 2: invariant merged_so_far: len(txStateDiffs) == len(response.Transactions) && calls_DiffMerge == old(calls_DiffMerge) + rangeindex + 1 && rangeindex + 1 <= len(txStateDiffs)
+//@   ensures built_for_the_number: result1 == nil ==> result0.Block != nil && result0.Block.Header != nil && result0.Block.Header.Number == number
 //@   ensures every_transaction_merged: result1 == nil ==> calls_DiffMerge == old(calls_DiffMerge) + len(response.Transactions)
